@@ -33,6 +33,11 @@ def make_file(rng, style='plain'):
     for i, l in enumerate(lines):       # an existing cycles instruction in lower / mixed case now and then
         if l[:4].upper() in ('CGLS', 'L.S.') and rng.random() < 0.3:
             lines[i] = (l[:4].lower() if rng.random() < 0.5 else l[:1] + l[1:4].lower()) + l[4:]
+    if rng.random() < 0.4:
+        # an atom close to a symmetry element (its own image is bonded to it): grow() has something to add
+        at = [i for i, l in enumerate(lines) if l.upper().startswith('HKLF')]
+        if at:
+            lines.insert(at[0], 'C99 1 %.5f %.5f %.5f 11.00000 0.05' % (rng.uniform(0.03, 0.05), rng.uniform(0.03, 0.05), rng.uniform(0.02, 0.04)))
     if rng.random() < 0.5:
         lines.append('WGHT 0.0432 1.234')
     return '\n'.join(lines) + '\n'
